@@ -57,6 +57,23 @@ def search(ctx, c):
             if verdict.startswith("bad"):
                 return {"what": "the pattern returned by the REAL Partition::GetPartition is rejected by the verified checker (checkTopo_sound)",
                         "case": c["tag"], "request": c["req"], "checker": verdict, "implementation": core.clip(c["exp"], 2000), "model": core.clip(c.get("model", ""), 2000)}
+    if k in ("tri", "quad", "rand", "bigrand", "reindex"):
+        # the pattern itself is still a valid tiling (or could not be judged): look for an END-TO-END failure of the property
+        # on the public API (Refine* on smoothed / plain solids) caused by the changed pattern
+        try:
+            libs.build("ser")
+            exe_r = core.compile_harness("c19_refine", [HR], libs.cxx_flags("ser") + ["-Wno-deprecated-declarations"], libs=libs.link_flags("ser"))
+            p = core.sh([exe_r, "240"], env={"VERIF_SEED": str(ctx.seed), "VERIF_TIER": ctx.tier}, timeout=600)
+            cs2, _ = core.parse_cases(p.stdout)
+            for c2 in cs2:
+                if not c2["prop"].startswith("ok"):
+                    return {"what": "model and implementation disagree on %s; the end-to-end oracle then fails on the real code" % c["tag"], "case": c2["tag"], "oracle": c2["prop"],
+                            "replay_cmd": "VERIF_SEED=%d %s 240   # case %s" % (ctx.seed, exe_r, c2["tag"].split()[0]), "first_mismatch": c["tag"]}
+            if p.returncode != 0:
+                return {"what": "model and implementation disagree on %s; the end-to-end harness then crashes (rc=%d)" % (c["tag"], p.returncode), "stderr_tail": p.stderr[-2000:],
+                        "replay_cmd": "VERIF_SEED=%d %s 240" % (ctx.seed, exe_r)}
+        except Exception:
+            pass
     if k == "subdiv":
         sec = c["exp"].split(";")
         tris = sec[1].split()
